@@ -146,3 +146,22 @@ Definition conc_prog (b : bp) (ticks : nat) (ds : list decl) (qs : list out_req)
                  enable_term (zalg env) (b_univ b) ds (r_expr r))) rs.
 
 Definition env_of (l : list Z) : var -> Z := fun v => nth (Pos.to_nat v - 1) l 0.
+
+(* diagnostics with bundle outputs *)
+Definition debug_progb (b : bp) (fuel : nat) (ds : list decl) (qs : list out_req) (rs : list ent_req)
+           (bqs : list bout_req) :=
+  match find_fix b fuel (init b) O with
+  | None => None
+  | Some (k, st) =>
+      Some (k, filter (fun x => negb (term_eqb (snd (fst x)) (snd x)))
+                 (map (fun ot => (o_sig (fst ot), observe talg b st (fst ot), snd ot))
+                      (c01_outs (b_univ b) ds qs ++ bundle_outs (b_univ b) ds bqs)))
+  end.
+
+Definition conc_progb (b : bp) (ticks : nat) (ds : list decl) (qs : list out_req) (rs : list ent_req)
+           (bqs : list bout_req) (env : var -> Z) : list (Z * Z) :=
+  conc_prog b ticks ds qs rs env ++
+  let st := run (zalg env) b ticks in
+  flat_map (fun q => map (fun s => (observe (zalg env) b st {| o_rn := bq_rn q; o_gn := bq_gn q; o_sig := s |},
+                                    get (zalg env) (nth (bq_decl q) (bden_prog (zalg env) (b_univ b) ds) []) s))
+                         (b_univ b)) bqs.
